@@ -19,16 +19,21 @@
             look-ahead agreement: when `test_rules_at_line` answers `true` (some rule of the ten —
             possibly the html rule, through `html_block_silent_real` — would terminate the paragraph /
             lazy continuation / list), the real-mode chain at that line accepts too.
-        `tokenizeH_shape_root` : `list_shape` survives (the html node is never a list item).
-        `html_encoding_faithful` : no rule of the nine produces a node that decodes as an html block.
+        `list_shapeH` : `list_shape` survives (the html node is never a list item).
+        `fence_not_html` : the fence rule (the only producer of `codeFence` nodes) never pushes a node that
+            decodes as an html block — the encoding of the html node is unambiguous.
 
   How: `MdIt/Lemmas/BlockH.lean` — the nine rules' lemmas apply verbatim (they are stated for arbitrary
   call-backs under contracts), the tokenizer loop lemmas through `tokLoopG_eq` (the ten-rule chain as
   ONE rule of a `Block` chain), the html rule meets every per-rule contract by `Props/Html.lean`.
 
-  Not done here (OPEN, see the end of the file): CR / CRLF invariance of `parseBlocksH`.
+    (e) `parseBlocksH_cr` (an EQUATION), `parseBlocksH_crlf`, `parseBlocksH_final_newline`,
+        `parseBlocksH_views`: C10 at the block level with html — and, because (b) is unconditional,
+        WITHOUT the fuel hypothesis the html-free versions (`Block.LE.parseBlocks_cr` …) still carry.
 -/
 import MdIt.Lemmas.BlockH
+import MdIt.Lemmas.BlockHLE
+import MdIt.Props.C10Doc
 
 namespace MdIt.BlockH
 open MdIt.Block
@@ -50,6 +55,7 @@ theorem parseBlocksH_conservative (cfg : Cfg) (src : List Char) :
   rw [base_ofCfg]
   show (match tokenizeH cfg (cfg.chain.map .base) _ _ with | .error e => _ | .ok s => _) = _
   rw [tokenizeH_conservative]
+  cases tokenize cfg (fuelFor cfg src) (BState.fresh src .root []) <;> rfl
 
 /-- the same from the other side: a ten-rule configuration whose chain does not contain the html rule -/
 theorem parseBlocksH_conservative' (cfg : CfgH) (h : RuleIdH.html ∉ cfg.chain) (src : List Char) :
@@ -57,6 +63,7 @@ theorem parseBlocksH_conservative' (cfg : CfgH) (h : RuleIdH.html ∉ cfg.chain)
   have hc : cfg.chain = cfg.base.chain.map .base := (map_base_filterMap cfg.chain h).symm
   unfold parseBlocksH parseBlocks
   rw [hc, tokenizeH_conservative]
+  cases tokenize cfg.base (fuelFor cfg.base src) (BState.fresh src .root []) <;> rfl
 
 /-! ## (b) totality -/
 
@@ -261,15 +268,13 @@ theorem fence_not_html {s s' : BState} {b : Bool} (h : fenceRule s false = .ok (
   unfold fenceRule at h
   crack h
   all_goals (try (subst_vars; exact hn))
-  rename_i hmk _ _ _ _ _ _ _ _ _ _ _ _ _
-  subst_vars
+  have hm : ¬¬(_ = '~' ∨ _ = '`') := ‹_›
   simp only [BState.push, List.mem_append, List.mem_singleton] at hn
   rcases hn with hn | rfl
   · exact hn
   · exfalso
     apply hh
-    have hm : ¬ ¬ (_ = '~' ∨ _ = '`') := hmk
-    rcases Classical.not_not.mp hm with rfl | rfl <;> rfl
+    rcases Classical.not_not.mp hm with rfl | rfl <;> simp [htmlContent?]
 
 /-! ## instances (by evaluation) -/
 
@@ -283,6 +288,17 @@ def stockH : List RuleIdH :=
   [.base .code, .base .fence, .base .blockquote, .base .hr, .base .list, .base .reference, .html,
    .base .heading, .base .lheading, .base .paragraph]
 
+/-- kind, range and (decoded html content, range) of the children, for the children of the root -/
+structure NodeView where
+  kind : Kind
+  range : Option (Nat × Nat)
+  kids : List (Option (List Char) × Option (Nat × Nat))
+  deriving DecidableEq
+
+def rootView : Except Panic (BNode × Refs.RefMap) → Option (List NodeView)
+  | .ok (r, _) => some (r.children.map (fun n => ⟨n.kind, n.range, n.children.map (fun c => (htmlContent? c.kind, c.range))⟩))
+  | .error _ => none
+
 /-- kinds of the children of the root, html blocks as `codeFence [] '<' 0 content` -/
 def rootKinds : Except Panic (BNode × Refs.RefMap) → Option (List Kind)
   | .ok (n, _) => some (n.children.map (·.kind))
@@ -290,11 +306,10 @@ def rootKinds : Except Panic (BNode × Refs.RefMap) → Option (List Kind)
 
 -- "a\n<div>\n*x*\n\n> <pre>\n> y": the html start interrupts the paragraph (look-ahead through the
 -- html member), the block runs to the blank line; the `<pre>` block lives inside the quote
-example : (parseBlocksH (cfgOfH 100 stockH) "a\n<div>\n*x*\n\n> <pre>\n> y".toList).toOption.map
-      (fun r => r.1.children.map (fun n => (n.kind, n.range, n.children.map (fun c => (htmlContent? c.kind, c.range))))) =
-    some [(.paragraph, some (0, 1), [(none, none)]),
-          (htmlKind "<div>\n*x*\n".toList, some (2, 11), []),
-          (.blockquote, some (13, 24), [(some "<pre>\ny\n".toList, some (15, 24))])] := by decide +kernel
+example : rootView (parseBlocksH (cfgOfH 100 stockH) "a\n<div>\n*x*\n\n> <pre>\n> y".toList) =
+    some [⟨.paragraph, some (0, 1), [(none, none)]⟩,
+          ⟨htmlKind "<div>\n*x*\n".toList, some (2, 11), []⟩,
+          ⟨.blockquote, some (13, 24), [(some "<pre>\ny\n".toList, some (15, 24))]⟩] := by decide +kernel
 -- "<!--\n- x": an unclosed comment swallows the list
 example : rootKinds (parseBlocksH (cfgOfH 100 stockH) "<!--\n- x".toList) = some [htmlKind "<!--\n- x\n".toList] := by
   decide +kernel
@@ -306,7 +321,7 @@ example : rootKinds (parseBlocksH (cfgOfH 100 stockH) "a\n<a>\n\n<a>\nb".toList)
     = some [.paragraph, htmlKind "<a>\nb\n".toList] := by decide +kernel
 -- the html rule alone, no paragraph rule: the fallback pushes the other lines
 example : rootKinds (parseBlocksH (cfgOfH 100 [.html]) "x\n<?php\n?>\ny".toList)
-    = some [.inlineRoot "x\n".toList [(0, 0)], htmlKind "<?php\n?>\n".toList, .inlineRoot "y\n".toList [(0, 9)]] := by
+    = some [.inlineRoot "x\n".toList [(0, 0)], htmlKind "<?php\n?>\n".toList, .inlineRoot "y\n".toList [(0, 11)]] := by
   decide +kernel
 -- html inside a list item inside a quote at `max_nesting = 1`: the quote is cut, nothing panics
 example : rootKinds (parseBlocksH (cfgOfH 1 stockH) "> - <div>\n<div>".toList)
@@ -317,20 +332,86 @@ example : ((testRulesH (cfgOfH 100 stockH).base stockH 3
 
 end examples
 
-/-
-  OPEN: CR / CRLF / final-newline invariance of `parseBlocksH` (the analogue of
-  `Block.LE.parseBlocks_crlf` / `_cr` / `_final_newline`, `Props/C10Doc.lean`).
+/-! ## (e) line endings: CR, CR LF, a final newline, equal views (C10 at the block level, with html) -/
 
-      theorem parseBlocksH_cr (cfg : CfgH) (src : List Char) (h : '\r' ∉ src) :
-          BRes (· = ·) (parseBlocksH cfg src) (parseBlocksH cfg (lfToCr src))
+section lineEndings
+open MdIt.Block.LE
+open MdIt.Lines (linesT lfToCrlf lfToCr)
 
-  What is available: `Html.htmlBlock_line_views` — the html rule's verdict and consumed extent depend
-  on the state only through `line`, `line_max`, `line_indent` and `get_line` — and `htmlBlock_node`
-  (content = `get_lines`, range = `get_map` of that extent).  What is missing: the lock-step
-  simulation `MdIt.Block.LE` relates two runs of `Block.engine` rule by rule over `Block.RuleId`
-  (`FRel` on states, `NRel` on nodes); it needs (1) the html case of the per-rule simulation (from the
-  two facts above plus `getLines` / `getMap` under `FRel`), and (2) its chain / tokenizer layer
-  re-indexed as in `tokLoopG_eq`.  Not attempted in this slice.
--/
+/-- **the ten-rule block pass in lock step** (the analogue of `Block.LE.parseBlocks_rel`) -/
+theorem parseBlocksH_rel {ρ : Nat → Nat → Prop} (hs : Shift ρ) (cfg : CfgH) {s₁ s₂ : List Char}
+    (h : StartRel ρ 0 0 (linesT s₁) (linesT s₂)) (hf : fuelFor cfg.base s₁ ≤ fuelFor cfg.base s₂) :
+    FRel (BlocksRel ρ) (parseBlocksH cfg s₁) (parseBlocksH cfg s₂) := by
+  unfold parseBlocksH
+  rcases tokenizeH_sim cfg.base cfg.chain (ctx_of hs s₁ s₂) hf (srel_fresh h .root []) with
+    h | ⟨a, b, h1, h2, S⟩ | ⟨e, h1, h2⟩
+  · rw [h]; exact frel_fuel _
+  · rw [h1, h2]; exact frel_ok ⟨S.nodeKind.symm, S.children, S.refs.symm⟩
+  · rw [h1, h2]; exact frel_err _
+
+/-- two sources with `StartRel` line lists: BOTH block passes succeed (`parseBlocksH_total`) and the
+    results are related — no fuel hypothesis is left -/
+theorem parseBlocksH_related {ρ : Nat → Nat → Prop} (hs : Shift ρ) (cfg : CfgH) {s₁ s₂ : List Char}
+    (h : StartRel ρ 0 0 (linesT s₁) (linesT s₂)) (hf : fuelFor cfg.base s₁ ≤ fuelFor cfg.base s₂) :
+    ∃ a b, parseBlocksH cfg s₁ = .ok a ∧ parseBlocksH cfg s₂ = .ok b ∧ BlocksRel ρ a b := by
+  rcases parseBlocksH_rel hs cfg h hf with hA | hok | ⟨e, h1, _⟩
+  · exact absurd hA (parseBlocksH_fuel cfg s₁)
+  · exact hok
+  · obtain ⟨r, m, ht⟩ := parseBlocksH_total cfg s₁
+    rw [h1] at ht; cases ht
+
+/-- **LF ↦ CR LF**: the same tree up to source offsets that only grow (kinds, payloads, html and
+    `InlineRoot` contents EQUAL; ranges and per-line tables `≤`), the same reference map -/
+theorem parseBlocksH_crlf (cfg : CfgH) (src : List Char) (h : '\r' ∉ src) :
+    ∃ a b, parseBlocksH cfg src = .ok a ∧ parseBlocksH cfg (lfToCrlf src) = .ok b ∧ BlocksRel (· ≤ ·) a b :=
+  have hS := linesT_crlf _ src rfl h 0 0 (Nat.le_refl 0)
+  parseBlocksH_related shift_le cfg hS (fuelFor_le cfg.base hS (byteLen_lfToCrlf src))
+
+/-- **LF ↦ CR**: the SAME result — tree (ranges and per-line tables included) and reference map -/
+theorem parseBlocksH_cr (cfg : CfgH) (src : List Char) (h : '\r' ∉ src) :
+    parseBlocksH cfg (lfToCr src) = parseBlocksH cfg src := by
+  have hS := linesT_cr _ src rfl h 0
+  obtain ⟨a, b, h1, h2, hk, hc, hr⟩ := parseBlocksH_related shift_eq cfg hS
+    (fuelFor_le cfg.base hS (by rw [byteLen_lfToCr]; exact Nat.le_refl _))
+  have hrange : a.1.range = b.1.range := by
+    unfold parseBlocksH at h1 h2
+    split at h1
+    · cases h1
+    · split at h2
+      · cases h2
+      · cases h1; cases h2
+        simp only [byteLen_lfToCr]
+  rw [h1, h2]
+  obtain ⟨⟨ka, ra, ca⟩, ma⟩ := a
+  obtain ⟨⟨kb, rb, cb⟩, mb⟩ := b
+  simp only at hk hc hr hrange
+  rw [hk, NRelL.eq hc, hr, hrange]
+
+/-- **a final newline**: the same children of the root (ranges and tables included) and the same
+    reference map (the root's own range is `(0, |src|)`, one byte longer) -/
+theorem parseBlocksH_final_newline (cfg : CfgH) (src : List Char)
+    (h : src.getLast? ≠ some '\n' ∧ src.getLast? ≠ some '\r') :
+    ∃ a b, parseBlocksH cfg src = .ok a ∧ parseBlocksH cfg (src ++ ['\n']) = .ok b ∧
+      a.1.kind = b.1.kind ∧ a.1.children = b.1.children ∧ a.2 = b.2 := by
+  have hS := linesT_final _ src rfl h 0
+  obtain ⟨a, b, h1, h2, hk, hc, hr⟩ := parseBlocksH_related shift_eq cfg hS (fuelFor_le cfg.base hS (by simp))
+  exact ⟨a, b, h1, h2, hk, NRelL.eq hc, hr⟩
+
+/-- **equal views** (the same lines, whatever the terminators and offsets): the same tree up to
+    source offsets, the same reference map -/
+theorem parseBlocksH_views (cfg : CfgH) (s₁ s₂ : List Char) (h : Lines.views s₁ = Lines.views s₂)
+    (hf : fuelFor cfg.base s₁ ≤ fuelFor cfg.base s₂) :
+    ∃ a b, parseBlocksH cfg s₁ = .ok a ∧ parseBlocksH cfg s₂ = .ok b ∧ BlocksRel (fun _ _ => True) a b :=
+  parseBlocksH_related shift_true cfg (startRel_true _ _ 0 0 (lines_of_views h)) hf
+
+-- non-vacuity: an html block interrupting a paragraph and one inside a quote, CR LF / CR vs LF
+example : rootKinds (parseBlocksH (cfgOfH 100 stockH) "a\r\n<div>\r\n\r\n> <pre>".toList)
+    = rootKinds (parseBlocksH (cfgOfH 100 stockH) "a\n<div>\n\n> <pre>".toList) ∧
+    rootKinds (parseBlocksH (cfgOfH 100 stockH) "a\r<div>\r\r> <pre>".toList)
+    = some [.paragraph, htmlKind "<div>\n".toList, .blockquote] ∧
+    lfToCr "a\n<div>\n\n> <pre>".toList = "a\r<div>\r\r> <pre>".toList := by
+  decide +kernel
+
+end lineEndings
 
 end MdIt.BlockH
